@@ -37,6 +37,7 @@ pub struct Norm<'a> {
     pub errors: Vec<String>,
     pub closure_depth: usize,
     pub canaries: Vec<String>,
+    pub foridx_inner: Option<usize>, // loop ordinal whose statement-level anchors were already placed around the R-FORIDX block
     pub ret_ty: Option<Type>, // declared return type: R-RETBIND annotates `let r: T = tail;` so coercions at the return site still apply
     pub mut_slices: Vec<String>, // parameters of type `&mut [T]` (R-SLICEPAT binds `&mut s[k]` for them)
 }
@@ -51,7 +52,7 @@ impl<'a> Norm<'a> {
             loop_no: 0, closure_no: 0, if_no: 0, match_no: 0, assert_no: 0, return_no: 0, forpat_no: 0, tmp_no: 0,
             call_no: Default::default(), let_no: Default::default(), hoisted: vec![], log: Default::default(),
             raws: vec![], used_anchors: Default::default(), avail_anchors: Default::default(), errors: vec![],
-            closure_depth: 0, canaries: vec![], mut_slices: vec![], ret_ty: None,
+            closure_depth: 0, canaries: vec![], mut_slices: vec![], ret_ty: None, foridx_inner: None,
         }
     }
     pub fn bump(&mut self, r: &str) {
@@ -430,6 +431,7 @@ impl<'a> VisitMut for Norm<'a> {
                 _ => false,
             };
             let next_loop = self.loop_no + 1;
+            let loop_stmt = loop_stmt && self.foridx_inner != Some(next_loop);
             if let Stmt::Local(l) = &mut s {
                 l.attrs.clear();
                 fn first_ident(p: &Pat) -> Option<String> {
@@ -475,6 +477,10 @@ impl<'a> VisitMut for Norm<'a> {
                 before.extend(self.anchor(&format!("before.{}#{}", nm, k)));
                 after.extend(self.anchor(&format!("after.{}#{}", nm, k)));
             }
+            if let Stmt::Expr(Expr::Continue(_), _) = &s {
+                let k = { let k = self.call_no.entry("continue".to_string()).or_default(); *k += 1; *k };
+                before.extend(self.anchor(&format!("continue#{}", k)));
+            }
             if loop_stmt {
                 before.extend(self.anchor(&format!("loop{}.before", next_loop)));
                 after.extend(self.anchor(&format!("loop{}.after", next_loop)));
@@ -499,7 +505,7 @@ impl<'a> VisitMut for Norm<'a> {
                 foridx = Some(parse_quote!({ let #sv = #ex; let mut #iv: usize = 0; #label while #iv < #sv.len() { let #pat = &#sv[#iv]; #iv += 1; #(#body)* } }));
             }
         }
-        if let Some(ne) = foridx { *e = ne; self.bump("R-FORIDX"); }
+        if let Some(ne) = foridx { *e = ne; self.foridx_inner = Some(self.loop_no + 1); self.bump("R-FORIDX"); }
         match e {
             Expr::While(w) => {
                 if let Expr::Let(l) = &*w.cond {
@@ -906,6 +912,7 @@ impl<'a> Norm<'a> {
     /// R-LETSPLIT. Only the receiver spine of the statement's root expression is considered, so the bound
     /// sub-expression is the first thing the statement evaluates anyway (evaluation order unchanged).
     fn letsplit_stmt(&mut self, s: &mut Stmt) -> Option<Stmt> {
+        if let Some(st) = self.letsplit_arg(s) { return Some(st); }
         let root: &mut Expr = match s {
             Stmt::Expr(e, _) => e,
             Stmt::Local(l) => match &mut l.init { Some(init) if init.diverge.is_none() => &mut *init.expr, _ => return None },
@@ -935,6 +942,44 @@ impl<'a> Norm<'a> {
             cur = match cur {
                 Expr::MethodCall(mc) => &mut *mc.receiver,
                 Expr::Try(t) => &mut *t.expr,
+                Expr::Paren(p) => &mut *p.expr,
+                _ => return None,
+            };
+        }
+        let id = Ident::new(&format!("__t{}", self.tmp_no), Span::call_site());
+        self.tmp_no += 1;
+        let inner = std::mem::replace(cur, parse_quote!(#id));
+        self.bump("R-LETSPLIT");
+        Some(parse_quote!(let mut #id = #inner;))
+    }
+
+    /// R-LETSPLIT on the first-evaluated argument: in a statement `x.m(f(g(E)))` / `f(g(E))` whose receiver / callees are plain
+    /// paths, the innermost-first-evaluated call to a function named in `@letsplit` (e.g. `Box::new`) is bound by a fresh `let`
+    /// in front of the statement. Nothing with an effect is evaluated before it, so the order of effects is unchanged.
+    fn letsplit_arg(&mut self, s: &mut Stmt) -> Option<Stmt> {
+        let names: Vec<String> = self.spec.letsplit.iter().filter(|n| n.contains("::")).cloned().collect();
+        if names.is_empty() { return None; }
+        let root: &mut Expr = match s { Stmt::Expr(e, _) => e, _ => return None };
+        fn is_plain(e: &Expr) -> bool { matches!(e, Expr::Path(_) | Expr::Lit(_)) }
+        // path of first-argument descents: true = found
+        fn find(e: &Expr, names: &[String], depth: usize, is_root: bool) -> Option<usize> {
+            match e {
+                Expr::Call(c) => {
+                    if !is_plain(&c.func) { return None; }
+                    if !is_root && names.iter().any(|n| squash(&ts(&c.func)) == squash(n)) { return Some(depth); }
+                    find(c.args.first()?, names, depth + 1, false)
+                }
+                Expr::MethodCall(mc) => { if !is_plain(&mc.receiver) { return None; } find(mc.args.first()?, names, depth + 1, false) }
+                Expr::Paren(p) => find(&p.expr, names, depth + 1, false),
+                _ => None,
+            }
+        }
+        let depth = find(root, &names, 0, true)?;
+        let mut cur: &mut Expr = root;
+        for _ in 0..depth {
+            cur = match cur {
+                Expr::Call(c) => c.args.first_mut()?,
+                Expr::MethodCall(mc) => mc.args.first_mut()?,
                 Expr::Paren(p) => &mut *p.expr,
                 _ => return None,
             };
